@@ -110,6 +110,7 @@ def inline_generics(ctx):
                 if fs:
                     per_field.setdefault(p, {})[f["name"]] = fs
     inline_generics.per_field = per_field
+    inline_generics.of_type = inline_params_of_type
     return res
 
 
@@ -241,7 +242,8 @@ ALLOWED_CALLS = r"core::slice::<impl \[T\]>::(get_mut|iter_mut|get|iter|len|is_e
                 r"<core::slice::IterMut<'a, T> as core::iter::Iterator>::next$|<&mut I as core::iter::Iterator>::next$|" \
                 r"<I as core::iter::IntoIterator>::into_iter$|core::ops::Try>::branch$|FromResidual|" \
                 r"core::pin::Pin::<&'a mut T>::get_unchecked_mut$|core::pin::Pin::<Ptr>::as_mut$|core::pin::Pin::<Ptr>::set$|" \
-                r"<core::pin::Pin<Ptr> as core::ops::Deref(Mut)?>::deref(_mut)?$|<core::option::Option<T> as core::ops::Try>::branch$"
+                r"<core::pin::Pin<Ptr> as core::ops::Deref(Mut)?>::deref(_mut)?$|<core::option::Option<T> as core::ops::Try>::branch$|" \
+                r"core::option::Option::<T>::(is_some|is_none|as_ref)$"
 
 
 def sensitive_type(ctx, R, ty):
@@ -261,10 +263,23 @@ def sensitive_type(ctx, R, ty):
     return False
 
 
+def holds_param_inline(ctx, ty):
+    """The type stores a value of some type parameter inline (not behind Box / Vec / a reference)."""
+    if getattr(ctx, "_ig_of_type", None) is None:
+        inline_generics(ctx)
+        ctx._ig_of_type = inline_generics.of_type
+    t = ctx.facts.types.get(ty)
+    if t is None or t["k"] in ("ref", "ptr"):
+        return False
+    return bool(ctx._ig_of_type(ty))
+
+
 def r8_2(ctx, R):
-    ctx.rule("R8.2", "unpinned accesses audited: every local of type &mut Slot<_> / &mut [Slot<_>] (crate-wide, "
-                     "pin-project-lite output excluded) flows only into the allowed inspection/re-pin APIs; it is never "
-                     "moved out of (`move (*p)` of slot type), assigned through (`*p = v`), or passed to another callee")
+    ctx.rule("R8.2", "unpinned accesses audited: every local of type &mut Slot<_> / &mut [Slot<_>] and every reference "
+                     "obtained by Pin::get_unchecked_mut / into_inner_unchecked from a pinned place that holds a type parameter "
+                     "inline (the adapters' pinned upstream Option<St>, a pinned wrapper's child; crate-wide, pin-project-lite "
+                     "output excluded) flows only into the allowed inspection/re-pin APIs; it is never moved out of "
+                     "(`move (*p)`), assigned through (`*p = v`), or passed to another callee (Option::take, mem::replace ...)")
     enum_path = R.slot_enum[0]
     n_src = 0
     n_use = 0
@@ -278,6 +293,23 @@ def r8_2(ctx, R):
             ty = a["place"]["ty"] if a["k"] != "const" else a["ty"]
             if enum_path in ty or ctx.facts.type_mentions(ty, lambda x, c: x["k"] == "param"):
                 n_src += 1
+            # an unchecked unpinning of ANY pinned place that holds a type parameter inline (the adapters' pinned upstream,
+            # the order wrapper's child ...) yields a reference that is audited like the slot references
+            if re.search(r"(get_unchecked_mut|into_inner_unchecked)$", fn["def"]) and not t["dest"]["p"]:
+                dl = t["dest"]["l"]
+                dty = ctx.facts.types.get(b.locals[dl])
+                if dty and dty["k"] == "ref" and holds_param_inline(ctx, dty["ty"]) and dl not in sens:
+                    work_l = [dl]
+                    while work_l:          # follow plain moves / reborrows of the unpinned reference
+                        l_ = work_l.pop()
+                        if l_ in sens:
+                            continue
+                        sens.append(l_)
+                        for ub, ui, node in fl.uses_of_local(l_):
+                            if ui != "term" and node["k"] == "assign" and not node["place"]["p"] and \
+                                    ((node["rv"]["k"] == "use" and node["rv"]["op"]["k"] in ("move", "copy") and not node["rv"]["op"]["place"]["p"]) or
+                                     (node["rv"]["k"] == "ref" and [e_["k"] for e_ in node["rv"]["place"]["p"]] == ["deref"])):
+                                work_l.append(node["place"]["l"])
         for l in sens:
             for ub, ui, node in fl.uses_of_local(l):
                 if b.is_cleanup(ub):
@@ -304,7 +336,7 @@ def r8_2(ctx, R):
                     # store through the pointer of slot type?
                     if s["place"]["l"] == l and s["place"]["p"]:
                         pty = s["place"]["ty"]
-                        if enum_path + "<" in pty and not pty.startswith("&"):
+                        if (enum_path + "<" in pty and not pty.startswith("&")) or holds_param_inline(ctx, pty):
                             ok = False
                             det = "assignment through unpinned reference (*p = v) of type %s" % pty
                         # writing the free-list payload (usize) of a NextFree slot is harmless
@@ -312,13 +344,13 @@ def r8_2(ctx, R):
                     if rv["k"] == "use" and rv["op"]["k"] == "move" and rv["op"]["place"]["l"] == l and rv["op"]["place"]["p"]:
                         mty = rv["op"]["place"]["ty"]
                         mt = ctx.facts.types.get(mty)
-                        if mt and (mt["k"] == "param" or (mt["k"] == "adt" and mt["name"] == enum_path)):
+                        if mt and (mt["k"] == "param" or (mt["k"] == "adt" and mt["name"] == enum_path) or holds_param_inline(ctx, mty)):
                             ok = False
                             det = "move out of unpinned storage: %s" % place_str(rv["op"]["place"])
                     if rv["k"] == "use" and rv["op"]["k"] == "copy" and rv["op"]["place"]["l"] == l and rv["op"]["place"]["p"]:
                         mty = rv["op"]["place"]["ty"]
                         mt = ctx.facts.types.get(mty)
-                        if mt and (mt["k"] == "param" or (mt["k"] == "adt" and mt["name"] == enum_path)):
+                        if mt and (mt["k"] == "param" or (mt["k"] == "adt" and mt["name"] == enum_path) or holds_param_inline(ctx, mty)):
                             ok = False
                             det = "copy out of unpinned storage"
                 if not ok:
